@@ -524,8 +524,7 @@ pub fn c19_pty_case(ctx: &Ctx, env: &RealEnv, dir: &Path, case: u64, seed: u64, 
     }
     let last_line = text.lines().filter(|l| l.starts_with("n2: ")).last().unwrap_or("").to_string();
     if want_exit == 0 {
-        let want = format!("n2: ran {} task{}, now up to date", nok, if nok == 1 { "" } else { "s" });
-        if last_line != want {
+        if !summary_ok(&last_line, nok) {
             rep.violation("display:summary-differs", &format!("summary {:?}, {} commands completed successfully", last_line, nok), mk(&s, &rounds));
         }
     }
@@ -792,8 +791,10 @@ pub fn c16_pty_case(ctx: &Ctx, env: &RealEnv, dir: &Path, case: u64, seed: u64, 
         if !shown {
             continue;
         }
+        // the row that introduces the step's output: names the step (description or command), and says
+        // so when it failed; the exact layout of that row is n2's business
         let header = if failed { format!("failed: {}", t.msg) } else { t.msg.clone() };
-        let hpos: Vec<usize> = rows.iter().enumerate().filter(|(_, r)| **r == header).map(|(k, _)| k).collect();
+        let hpos: Vec<usize> = rows.iter().enumerate().filter(|(_, r)| r.contains(t.msg.as_str()) && (!failed || r.contains("fail"))).map(|(k, _)| k).collect();
         if hpos.len() != 1 {
             let what = if failed { "pty:failure-not-reported" } else { "pty:header-count" };
             rep.violation(what, &format!("step {}: header {:?} is on the screen {} times", i, header, hpos.len()), mk());
